@@ -188,6 +188,18 @@ def worker(case: Dict[str, Any]) -> CaseResult:
                     warnings.simplefilter("ignore")
                     if run_cli(root, "client", older).ok:
                         count("generated_over_older_unpruned_package")
+            if case["idx"] % 4 == 2 and not (inc_in and inc_en):
+                # the target already holds an older PRUNED generation of the same schema made for OTHER operations (the user has edited the queries since): its
+                # modules are newer than the untouched schema file, and what they hold is not what these operations need
+                import os as _os
+                import time as _time
+                write_case(root, sdl, "query VfEarlier { __typename }", cfg_full)
+                with warnings.catch_warnings():
+                    warnings.simplefilter("ignore")
+                    if run_cli(root, "client", cfg_full).ok:
+                        count("generated_over_older_pruned_package_of_other_operations")
+                        for f_ in (root / name).glob("*.py"):
+                            _os.utime(f_, (_time.time() + 3600, _time.time() + 3600))
             cfg = write_case(root, sdl, queries, cfg_full)
             with warnings.catch_warnings():
                 warnings.simplefilter("ignore")
